@@ -320,6 +320,86 @@ theorem pairFindI_span (c : Ctx) (pd : PairData) (found : PairFound) (rs : List 
                   obtain ⟨rfl, rfl, rfl⟩ := h
                   refine ⟨by simp, by simp, by simp, by simp, fun _ => ⟨it2.idx, _, _, rfl, hij, hjm, sp⟩, by simp, by simp, by simp⟩
 
+
+/-- **the decision of PairPos is local**: a context with the same settings and geometry whose buffer holds the same glyphs at
+    every index read finds the same thing, on the same path, reading the same indices -/
+theorem pairFindI_local {c1 c2 : Ctx} (hs : Similar c1 c2) (pd : PairData) (found : PairFound) (rs : List Nat) (why : PairWhy)
+    (h : pairFindI c1 pd = .ok (found, rs, why)) (hag : ∀ i ∈ rs, c1.buf.info[i]? = c2.buf.info[i]?) :
+    pairFindI c2 pd = .ok (found, rs, why) := by
+  have hcur : c1.buf.idx ∈ rs := by
+    unfold pairFindI at h
+    cases hg : Mem.get c1.buf.info c1.buf.idx with
+    | error e => simp [hg] at h
+    | ok cur =>
+      simp only [hg] at h
+      split at h
+      · simp only [Except.ok.injEq, Prod.mk.injEq] at h; rw [← h.2.1]; exact List.mem_cons_self ..
+      · cases hn : It.new c1 c1.buf.idx false with
+        | error e => simp [hn] at h
+        | ok it =>
+          simp only [hn] at h
+          cases hx : It.nextI it c1.font c1.buf.info c1.buf.len with
+          | error e => simp [hx] at h
+          | ok r =>
+            obtain ⟨⟨fd, it2, u⟩, rs2⟩ := r
+            simp only [hx] at h
+            cases fd with
+            | false => simp only [Except.ok.injEq, Prod.mk.injEq] at h; rw [← h.2.1]; exact List.mem_cons_self ..
+            | true =>
+              simp only at h
+              cases hg2 : Mem.get c1.buf.info it2.idx with
+              | error e => simp [hg2] at h
+              | ok sec =>
+                simp only [hg2] at h
+                split at h
+                · simp only [Except.ok.injEq, Prod.mk.injEq] at h; rw [← h.2.1]; exact List.mem_cons_self ..
+                · split at h <;>
+                    (simp only [Except.ok.injEq, Prod.mk.injEq] at h; rw [← h.2.1]; exact List.mem_cons_self ..)
+  have hc := hag _ hcur
+  unfold pairFindI at h ⊢
+  rw [hs.idx, hs.len, hs.font, get_congr hc, It.new_local hs hc]
+  cases hg : Mem.get c1.buf.info c1.buf.idx with
+  | error e => simp [hg] at h
+  | ok cur =>
+    simp only [hg] at h ⊢
+    split at h
+    · rename_i hcv; rw [if_pos hcv]; exact h
+    · rename_i hcv
+      rw [if_neg hcv]
+      cases hn : It.new c1 c1.buf.idx false with
+      | error e => simp [hn] at h
+      | ok it =>
+        simp only [hn] at h ⊢
+        cases hx : It.nextI it c1.font c1.buf.info c1.buf.len with
+        | error e => simp [hx] at h
+        | ok r =>
+          obtain ⟨⟨fd, it2, u⟩, rs2⟩ := r
+          simp only [hx] at h
+          have hrs : ∀ i ∈ rs2, c1.buf.info[i]? = c2.buf.info[i]? := by
+            intro i hi
+            apply hag
+            cases fd with
+            | false =>
+              simp only [Except.ok.injEq, Prod.mk.injEq] at h; rw [← h.2.1]; exact List.mem_cons_of_mem _ hi
+            | true =>
+              simp only at h
+              cases hg2 : Mem.get c1.buf.info it2.idx with
+              | error e => simp [hg2] at h
+              | ok sec =>
+                simp only [hg2] at h
+                split at h
+                · simp only [Except.ok.injEq, Prod.mk.injEq] at h; rw [← h.2.1]; exact List.mem_cons_of_mem _ hi
+                · split at h <;>
+                    (simp only [Except.ok.injEq, Prod.mk.injEq] at h; rw [← h.2.1]; exact List.mem_cons_of_mem _ hi)
+          rw [It.nextI_local c1.font c1.buf.info c2.buf.info _ _ _ _ hx hrs]
+          cases fd with
+          | false => exact h
+          | true =>
+            simp only at h ⊢
+            obtain ⟨_, _, _, _, a5, _⟩ := It.nextI_span _ _ _ _ _ _ _ _ hx
+            rw [get_congr (hrs _ (a5 rfl))]
+            exact h
+
 /-- `finish`: masks only grow, the cursor moves to the second glyph (or past it) -/
 theorem pairFinish_grown (b b' : Buf) (j : Nat) (has2 : Bool) (h : pairFinish b j has2 = .ok b') (hij : b.idx ≤ j)
     (hj : j < b.len) (hlen : b.len ≤ b.info.length)
